@@ -28,7 +28,7 @@ for d in sorted(glob.glob('/verif/seeded/*')):
                 p = subprocess.run(cmd, cwd='/verif', stdout=subprocess.PIPE, stderr=subprocess.STDOUT)
                 out = p.stdout.decode('utf-8', 'replace')
                 jobs = re.findall(r'^  job=(\S+) :: (.*)$', out, re.M)
-                res[c] = dict(tier=a.tier, exit=p.returncode, detected=(p.returncode == 1 and 'VIOLATION property=' in out),
+                res['%s@%s' % (c, a.tier)] = dict(tier=a.tier, exit=p.returncode, detected=(p.returncode == 1 and 'VIOLATION property=' in out),
                               violating_jobs=[j for j, _ in jobs][:6], first_message=(jobs[0][1][:240] if jobs else ''),
                               wall_s=round(time.time() - t0))
     finally:
